@@ -17,7 +17,9 @@ public:
 
     template<typename T, typename ...Args>
     typename std::enable_if_t<!Runnable::isRunnable<T>::value, void> start(T ptr, Args&&... args) {
-        m_thread = std::thread([&]() {
+        // `ptr` is a by-value parameter that dies when start() returns: the new
+        // thread needs its own copy; the arguments stay references as before
+        m_thread = std::thread([this, ptr, &args...]() mutable {
             ptr(std::forward<Args>(args)...);
             m_isFinished = true;
         });
